@@ -26,3 +26,15 @@ struct { char z[3]; } *anon_a3;
 union { int i; float f; } *anon_ua;
 int reader_open(int fd) { state_a.fd = fd; state_a.flags = (int) st_a + cfg_a.a; return head_a ? head_a->key : state_a.fd; }
 int reader_key(struct node *n) { return n ? n->key : 0; }
+/* function types that differ only in an anonymous return type: their internal names tie */
+struct ops_a {
+  struct { int a; } (*get_a)(void);
+  struct { long b; } (*get_b)(void);
+  struct { char c[3]; } (*get_c)(void);
+  struct { short d; int e; } (*get_d)(void);
+  struct { double f; } (*get_f)(void);
+  struct { void *g; } (*get_g)(void);
+  union { int h; float i; } (*get_h)(void);
+  union { long j; double k; } (*get_j)(void);
+};
+int reader_ops(struct ops_a *o) { return o && o->get_a ? 1 : 0; }
